@@ -55,7 +55,7 @@ Inst(tk) == tk[1]
 Src(T, s) == IF Has(s, "c") THEN s.c ELSE T.regs[s.r]
 
 ZeroRegs == [i \in 1..NREG |-> 0]
-NoStreams == [i \in 1..NSTR |-> [rid |-> NONE, tag |-> 0, val |-> 0]]
+NoStreams == [i \in 1..NSTR |-> [rid |-> NONE, tag |-> 0, val |-> 0, l |-> FALSE]]
 NoHandles == [i \in 1..NHND |-> NONE]
 
 \* legacy: the task was spawned through the capability API (CapabilityContext): its shell futures
@@ -254,7 +254,7 @@ Remove(S, K0, notify, why) ==
 
 \* leaves of the blocking instruction I, uniformly
 LeavesOf(I) ==
-  CASE I.op = "req"   -> << [k |-> "req", tag |-> I.tag, src |-> I.src] >>
+  CASE I.op = "req"   -> << [k |-> "req", tag |-> I.tag, src |-> I.src, l |-> Fld(I, "l", FALSE)] >>
     [] I.op = "next"  -> << [k |-> "next", s |-> I.s] >>
     [] I.op = "joinh" -> << [k |-> "joinh", h |-> I.h] >>
     [] OTHER          -> I.leaves        \* join / select
@@ -304,6 +304,9 @@ SetToSortSeq(X) ==
   ELSE LET m == CHOOSE x \in X : \A y \in X : (x[1] < y[1]) \/ (x[1] = y[1] /\ x[2] <= y[2])
        IN <<m>> \o SetToSortSeq(X \ {m})
 
+\* the outermost command (the core's executor under a Core host)
+TopCmd(S) == CHOOSE c \in DOMAIN S.cmds : S.cmds[c].host = ROOT /\ S.cmds[c].alive
+
 AddOut(S, c, items) == [S EXCEPT !.cmds[c].out = @ \cup items]
 
 ExecWait(S, t, I) ==
@@ -320,11 +323,16 @@ ExecWait(S, t, I) ==
                    /\ (mode = "all" \/ win = 0 \/ i <= win)
       \* requests sent by this poll (first poll of an inline request or of a stream)
       newR == {i \in DOMAIN L : polled(i) /\ L[i].k \in {"req", "next"} /\ ls0[i].rid \notin DOMAIN S.reqs}
+      \* l: the leaf is a future of the capability API (CapabilityContext), possibly inside a Command
+      \* task: its effect goes straight to the core's channel, it is not woken when its request is
+      \* dropped, and it keeps its waker in its own state
+      leafL(i) == T.legacy \/ (IF L[i].k = "req" THEN Fld(L[i], "l", FALSE) ELSE T.streams[L[i].s].l)
       newReq(i) == IF L[i].k = "req"
-                   THEN NewReqL("once", t, L[i].tag, Src(T, L[i].src), T.legacy)
-                   ELSE NewReqL("many", t, T.streams[L[i].s].tag, T.streams[L[i].s].val, T.legacy)
-      newItems == {EffItem(ls0[i].rid, newReq(i).tag, newReq(i).val,
-                          T.en + Cardinality({j \in newR : j < i})) : i \in newR}
+                   THEN NewReqL("once", t, L[i].tag, Src(T, L[i].src), leafL(i))
+                   ELSE NewReqL("many", t, T.streams[L[i].s].tag, T.streams[L[i].s].val, leafL(i))
+      item(i) == EffItem(ls0[i].rid, newReq(i).tag, newReq(i).val, T.en + Cardinality({j \in newR : j < i}))
+      newItems == {item(i) : i \in {j \in newR : ~leafL(j) \/ T.legacy}}
+      topItems == {item(i) : i \in {j \in newR : leafL(j) /\ ~T.legacy}}
       ridsNew == {ls0[i].rid : i \in newR}
       idxOf(r) == CHOOSE i \in DOMAIN L : ls0[i].rid = r /\ L[i].k \in {"req", "next"}
       \* existing requests touched by this poll
@@ -335,7 +343,7 @@ ExecWait(S, t, I) ==
                         IF q.chan # <<>>
                         THEN [q EXCEPT !.chan = Tail(@),
                                        !.recvAlive = IF q.kind0 = "once" THEN FALSE ELSE @]
-                        ELSE IF q.senderAlive THEN [q EXCEPT !.reg = "latest"]
+                        ELSE IF q.senderAlive \/ q.legacy THEN [q EXCEPT !.reg = "latest"]
                         ELSE q      \* closed and empty: a one-shot stays pending without a waker
                    ELSE S.reqs[r]]
       \* wakers parked on join handles by this poll
@@ -381,7 +389,9 @@ ExecWait(S, t, I) ==
                       !.regs = regs1, !.pc = pc1, !.seq = @ + nreq, !.en = @ + Cardinality(newR)]
       S1 == [S EXCEPT !.tasks[t] = T1, !.joinreg = J1]
       S2 == [S1 EXCEPT !.reqs = R2]
-  IN [S |-> AddOut(S2, T.cmd, newItems), oc |-> IF complete THEN "cont" ELSE "pending"]
+      S3 == AddOut(S2, T.cmd, newItems)
+  IN [S |-> IF topItems = {} THEN S3 ELSE AddOut(S3, TopCmd(S3), topItems),
+      oc |-> IF complete THEN "cont" ELSE "pending"]
 
 ExecInstr(S, t) ==
   LET T == S.tasks[t] IN
@@ -401,7 +411,8 @@ ExecInstr(S, t) ==
     [] I.op = "map" -> adv([S EXCEPT !.tasks[t].regs[I.reg] = ApplyF(I.f, @)])
     [] I.op = "goto" -> [S |-> [S EXCEPT !.tasks[t].pc = I.pc], oc |-> "cont"]
     [] I.op = "open" ->
-         adv([S EXCEPT !.tasks[t].streams[I.s] = [rid |-> <<t[1], t[2], T.seq>>, tag |-> I.tag, val |-> Src(T, I.src)],
+         adv([S EXCEPT !.tasks[t].streams[I.s] = [rid |-> <<t[1], t[2], T.seq>>, tag |-> I.tag, val |-> Src(T, I.src),
+                                                  l |-> Fld(I, "l", FALSE)],
                        !.tasks[t].seq = @ + 1])
     [] I.op = "spawn" ->
          LET k == <<t[1], I.script.tid>>
@@ -499,7 +510,6 @@ CanReap(S, c) ==
 (* "fifo": which step the code takes next.  Descend from the outermost command: a Command drains  *)
 (* its ready queue in order and moves spawned tasks over when it is empty; the core's executor     *)
 (* runs newly spawned tasks first; a hosting task at the head of its queue runs its child first.   *)
-TopCmd(S) == CHOOSE c \in DOMAIN S.cmds : S.cmds[c].host = ROOT /\ S.cmds[c].alive
 NoSel == [k |-> "none", c |-> NONE, t |-> NONE]
 RECURSIVE Sel(_, _)
 Sel(S, c) ==
